@@ -225,6 +225,12 @@ package server
 //@   modifies $held, $acq, $persisted, $storeAttempted, map[string]string, F.server.NamespacesState.*, map[string]interface{}, Entity.*, []interface{}
 //@   safe typeassert nilmap
 
+// a new parser starts with no namespace context: prefixes and property mappings of one payload never leak into another
+//@ unit server.NewEntityStreamParser
+//@   prop C15
+//@   ensures [C15:a-new-parser-carries-no-namespace-context] result != nil && result.store == store && result.localNamespaces != nil && result.localPropertyMappings != nil && (forall k string :: !has(result.localNamespaces, k)) && (forall k string :: !has(result.localPropertyMappings, k))
+//@   modifies none
+
 //@ unit (*EntityStreamParser).parseArray
 //@   prop C15
 //@   requires [parser] esp != nil
@@ -236,6 +242,18 @@ package server
 //@   requires [mappings] esp.localPropertyMappings != nil
 //@   modifies $held, $acq, $persisted, $storeAttempted, map[string]string, F.server.NamespacesState.*, map[string]interface{}, Entity.*, []interface{}
 //@   safe typeassert nilmap
+//@   ghost nestedG slice
+//@   ghost nestedEntG *Entity = nil
+//@   at call parseArray#1
+//@     ghost nestedG := $result0
+//@   at call parseEntity#1
+//@     ghost nestedEntG := $result0
+//@   at call append#* before
+//@     assert [C15:every-member-of-a-json-array-becomes-exactly-one-element-of-the-parsed-value] len($arg1) == 1
+//@   at call append#1 before
+//@     assert [C15:a-nested-object-is-kept-as-one-entity-member] typeof($arg1[0]) == typeid("*server.Entity") && cast($arg1[0], "*server.Entity") == nestedEntG
+//@   at call append#2 before
+//@     assert [C15:a-nested-array-is-kept-as-one-array-member] typeof($arg1[0]) == typeid("[]interface{}") && cast($arg1[0], "[]interface{}") == nestedG
 
 //@ unit (*EntityStreamParser).parseRefValue
 //@   prop C15
